@@ -690,19 +690,15 @@ func (fr *Frame) builtinAppend(in ssa.Instruction, cc *ssa.CallCommon, args []Va
 		srt := SArr(SBV(64), l.Sort)
 		c := p.heapCell(st, key, SArr(SRef, srt))
 		old := Select(c, s.Ref)
-		na := B.Fresh("appended", srt)
 		k := B.BoundVar("k", SBV(64))
-		z := BVInt(0, 64)
 		var srcAt *Term
 		if srcSlice != nil {
 			srcAt = Select(Select(c, srcSlice.Ref), BVAdd(srcSlice.Off, BVSub(k, s.Len)))
 		} else {
 			srcAt = strAt(srcStr, BVSub(k, s.Len))
 		}
-		body := And(
-			Implies(And(BVSle(z, k), BVSlt(k, s.Len)), Eq(Select(na, k), Select(old, BVAdd(s.Off, k)))),
-			Implies(And(BVSle(s.Len, k), BVSlt(k, newLen)), Eq(Select(na, k), srcAt)))
-		p.assume(st.Guard, Forall([]*Term{k}, body))
+		// definitional (lambda) contents: old prefix, then the appended elements
+		na := Lambda(k, Ite(BVSlt(k, s.Len), Select(old, BVAdd(s.Off, k)), srcAt))
 		st.Heap[key] = Store(c, ref, na)
 	}
 	p.note("append modelled as copy into a fresh backing array")
@@ -786,6 +782,12 @@ func (fr *Frame) callModular(in ssa.Instruction, f *ssa.Function, c *Contract, a
 		p.assume(st.Guard, g)
 		facts = append(facts, g)
 	}
+	for _, cl := range c.Assumes {
+		g := env2.evalBool(cl.Expr, cl.Src)
+		p.assume(st.Guard, g)
+		facts = append(facts, g)
+		p.assumedLib["assumed postcondition of "+name+": "+cl.Src] = true
+	}
 	if res != nil {
 		res = p.propagateEqs(st, facts, []Value{res})[0]
 	} else {
@@ -797,6 +799,7 @@ func (fr *Frame) callModular(in ssa.Instruction, f *ssa.Function, c *Contract, a
 // ---- effects of loops (what to havoc)
 
 type effects struct {
+	allMaps  bool
 	cells    map[*Cell]bool
 	heap     map[string]bool
 	heapSort map[string]string
